@@ -284,11 +284,17 @@ theorem idsBelow_free (s : H) (h : IdsBelow s) : dictIn s._id_to_node s.next_nod
   rw [hk'] at this
   exact Int.lt_irrefl _ this
 
-theorem add_node_fresh (s : H) (o : PyNode) (h : IdsBelow s) :
+/-- `o`: what the constructor call gave — in particular no `id` yet, so the guard of `add_node` against an object
+that is already part of the graph does not fire -/
+theorem add_node_fresh (s : H) (o : PyNode) (h : IdsBelow s) (hid : o.id = none) :
     graph_add_node (s.allocN o).1 s.nfresh none = .ok (regNode s o) := by
   rw [graph_add_node_eq]
+  have hp : nodeIsPart (s.allocN o).1 s.nfresh = false :=
+    nodeIsPart_of_id_none _ _ (by
+      show (if s.nfresh = s.nfresh then o else s.n s.nfresh).id = none
+      rw [if_pos rfl]; exact hid)
   have : dictIn (s.allocN o).1._id_to_node (anKey (s.allocN o).1 none) = false := idsBelow_free s h
-  rw [this]
+  rw [hp, this]
   rfl
 
 theorem stepOf_ok (L : Lang) (m : Inst) (atts : List PyAttackerInfo) (a : IAsset) (sn : String) (d : StepDecl)
@@ -367,7 +373,7 @@ theorem stepOf_ok (L : Lang) (m : Inst) (atts : List PyAttackerInfo) (a : IAsset
     rfl
   show graph_add_node (s.allocN (newNode (assetObj a) sn (attribsOf d) _ ex)).1 s.nfresh none = _
   rw [this]
-  exact add_node_fresh s _ hs
+  exact add_node_fresh s _ hs rfl
 
 /-! ### what `regNode` does to the heap -/
 
